@@ -281,29 +281,27 @@ Definition keep_if_on (i : N) (keep : option N) (l : list session) : option N :=
   end.
 
 (** ** [FailSafe::expire] followed by the caller's [notify_fabric_removed].
-    [keep]: the session the triggering command arrived on.  [None]: [fabrics.remove] failed
-    (the fabric of the context is not in the table): nothing changes, still armed. *)
-Definition expire (fx : fixes) (st : state) (keep : option N) : option state :=
+    [keep]: the session the triggering command arrived on.  The fabric of the context may be
+    gone already ([RemoveFabric] by another administrator): the expiry goes ahead all the same
+    (repair e10905a: it used to fail and leave the fail-safe armed for good). *)
+Definition expire (fx : fixes) (st : state) (keep : option N) : state :=
   match st_fs st with
-  | Idle => Some st
+  | Idle => st
   | Armed f _ =>
     if f =? 0 then
-      Some (set_fs (set_sess st (remove_pase keep (st_sess st))) Idle)
-    else match fget f (st_fabs st) with
-    | None => None
-    | Some _ =>
+      set_fs (set_sess st (remove_pase keep (st_sess st))) Idle
+    else
       let l := fdel f (st_fabs st) in
       let s1 := remove_pase keep (st_sess st) in
       match fget f (st_kvfabs st) with
       | Some kf =>
         (* the fabric is resurrected from its persisted copy: not reported as removed *)
-        Some (set_fs (set_sess (set_fabs st (l ++ [kf])) s1) Idle)
+        set_fs (set_sess (set_fabs st (l ++ [kf])) s1) Idle
       | None =>
         let s2 := if fx_expire_sessions fx
                   then remove_for_fabric f (keep_if_on f keep s1) s1 else s1 in
-        Some (drop_bound fx f (set_fs (set_sess (set_fabs st l) s2) Idle))
+        drop_bound fx f (set_fs (set_sess (set_fabs st l) s2) Idle)
       end
-    end
   end.
 
 (** ** The credential commands (sub-steps of [OAddNoc] / [OUpdNoc]) *)
@@ -477,8 +475,8 @@ Definition step_fx (fx : fixes) (st : state) (o : op) : state * status :=
     match sess_ctx st sid with
     | None => (st, StGone)
     | Some s =>
-      if s_fab s =? 0 then (st, StAccess)             (* fabric-scoped command *)
-      else if negb (allowed st s) then (st, StAccess)
+      (* not a fabric-scoped command: a PASE session may remove a fabric, too *)
+      if negb (allowed st s) then (st, StAccess)
       else if i =? 0 then (st, StConstraint)
       else match fget i (st_fabs st) with
       | None => (st, StNotFound)
@@ -492,30 +490,20 @@ Definition step_fx (fx : fixes) (st : state) (o : op) : state * status :=
         (drop_bound fx i st1, StOk)
       end
     end
-  | OTimeout =>
-    match expire fx st None with
-    | Some st' => (st', StOk)
-    | None => (st, StNotFound)
-    end
+  | OTimeout => (expire fx st None, StOk)
   | OArm0 sid =>
     match sess_ctx st sid with
     | None => (st, StGone)
     | Some s =>
       if negb (allowed st s) then (st, StAccess)
-      else match expire fx st (Some (s_id s)) with
-      | Some st' => (st', StOk)
-      | None => (st, StNotFound)
-      end
+      else (expire fx st (Some (s_id s)), StOk)
     end
   | ORevoke sid =>
     match sess_ctx st sid with
     | None => (st, StGone)
     | Some s =>
       if negb (allowed st s) then (st, StAccess)
-      else match expire fx st (Some (s_id s)) with
-      | Some st' => (st', StOk)
-      | None => (st, StNotFound)
-      end
+      else (expire fx st (Some (s_id s)), StOk)
     end
   | OEstablish r =>
     match find (fun f => f_root f =? r) (st_fabs st) with
